@@ -258,6 +258,10 @@ func (p *PacketOut) MarshalBinary() (data []byte, err error) {
 	n += 4
 	binary.BigEndian.PutUint32(data[n:], p.InPort)
 	n += 4
+	p.ActionsLen = 0
+	for _, a := range p.Actions {
+		p.ActionsLen += a.Len()
+	}
 	binary.BigEndian.PutUint16(data[n:], p.ActionsLen)
 	n += 2
 	n += 6 // for pad
